@@ -1,6 +1,6 @@
 CONSTANTS
   M = 16
-  MaxPackets = 5
+  MaxPackets = 4
   MinPackets = 1
   FrameSizes = {1, 2, 3}
   SameTs = FALSE
@@ -14,15 +14,15 @@ CONSTANTS
   MaxDup = 1
   MaxPopCalls = 2
   MaxMidFlush = 1
-  Eagers = {FALSE}
+  Eagers = {TRUE}
   Holds = {0}
   HoldFors = {0}
-  Situations = FALSE
+  Situations = TRUE
   Algo = "ring"
-  Impl = "fixABC"
+  Impl = "asis"
   Sampling = FALSE
 INIT Init
 NEXT Next
 VIEW mcview
-INVARIANTS ModelContiguousSameTs ModelStartsAtHead ModelInOrder ModelNoPacketTwice ModelComplete ModelFilledSane
+INVARIANTS ModelContiguousSameTs ModelStartsAtHead ModelComplete EmitDone
 CHECK_DEADLOCK FALSE
